@@ -1303,6 +1303,10 @@ class NetWorld(World):
         m["shared"] = True
         for k in [k for k in self.tracks if k[0] == to]:
             del self.tracks[k]
+        # files the previous network of that session saved describe another network
+        for k in [k for k, f in getattr(self, "files", {}).items() if f["owner"] == to]:
+            del self.files[k]
+        getattr(self, "idx_files", {}).pop("/sim/index_%d.pkl" % to, None)
         self.probe("sub_network_becomes_a_session")
 
     def op_simplify(self, st):
